@@ -145,6 +145,13 @@ def run_unit(unit, canary=False, use_cache=True, log_air=False):
         prim = next((s for s in spans if s.get("is_primary")), spans[0] if spans else None)
         if kind is None or prim is None:
             hard.append(msg + (" @%s:%d" % (prim["file_name"], prim["line_start"]) if prim else ""))
+            if prim:
+                gl0 = prim["line_start"] - 1
+                m0 = linemap[gl0] if 0 <= gl0 < len(linemap) and linemap[gl0] else {}
+                if m0.get("fn"):
+                    res.setdefault("error_fns", [])
+                    if m0["fn"] not in res["error_fns"]:
+                        res["error_fns"].append(m0["fn"])
             continue
         gl = prim["line_start"] - 1
         meta = linemap[gl] if 0 <= gl < len(linemap) and linemap[gl] else {"origin": "?"}
